@@ -67,6 +67,7 @@ def cases(tier, seed):
                     out.append({'k': 'rejected_step', 'sim': s, 'w': w, 'illegal': ill})
     for s in SIMS:
         out.append({'k': 'step_multiple_resume', 'sim': s})
+        out.append({'k': 'dup_track', 'sim': s, 'K': 3})
     for c in ds[:8 if tier == 'quick' else 150]:
         for s in SIMS:
             out.append(dict(c, k='default_tracer', sim=s, K=2))
@@ -742,6 +743,64 @@ def do_rtl_assert_channels(case, ob, site):
         ob.prove_all(goals, list(p.pc), v)
 
 
+def do_dup_track(case, ob, site):
+    """a wires_to_track list that names a wire more than once (two overlapping lists put together): still one trace entry per
+    wire and step"""
+    kind, K = case['sim'], case['K']
+    pyrtl.reset_working_block()
+    a, b = pyrtl.Input(3, 'a'), pyrtl.Input(3, 'b')
+    r = pyrtl.Register(3, 'r')
+    r.next <<= a ^ b
+    o = pyrtl.Output(3, 'o')
+    o <<= r + a
+    block = pyrtl.working_block()
+    dup = [a, o, r, a, b, o, a] if kind != 'compiled' else [a, o, a, b, o, a]
+    v = Vars()
+
+    def ins(t):
+        return {'a': SymInt.mk(v.inp('a', t, 3), False), 'b': SymInt.mk(v.inp('b', t, 3), False)}
+
+    def body():
+        tracer = pyrtl.SimulationTrace(wires_to_track=dup, block=block)
+        if kind == 'compiled':
+            cm = CompiledModel(block, tracked=dup)
+            cm.reset()
+            from pyrtl import compilesim as cs
+            sim = cm.sim
+            sim._crun = lambda steps, ibuf, obuf: cm.crun(steps, ibuf, obuf)
+            with sym.stubs(cs, ctypes=simdrv._CtypesShim(), int=sym.sym_int):
+                for t in range(K):
+                    sim.step(ins(t))
+        else:
+            cls = pyrtl.Simulation if kind == 'sim' else pyrtl.FastSimulation
+            sim = cls(block=block, tracer=tracer)
+            for t in range(K):
+                sim.step(ins(t))
+        tr = sim.tracer.trace
+        return {n: list(tr[n]) for n in tr}, {n: sim.inspect(n) for n in ('a', 'b', 'o')}
+    if kind == 'compiled':
+        paths = explore(body)
+    else:
+        with sym_env([block]):
+            paths = explore(body)
+    ob.paths += len(paths)
+    for p in paths:
+        if p.exc is not None:
+            ob.prove('no-exception(%s)' % type(p.exc).__name__, z3.Not(p.cond()), [], v, site=site + ':exception')
+            continue
+        tr, insp = p.result
+        goals = []
+        for n in sorted(tr):
+            ob.fact('one-trace-entry-per-step:%s' % n, len(tr[n]) == K, site + ':trace-length', detail='%d entries after %d steps' % (len(tr[n]), K))
+        for n in ('a', 'b'):
+            for t in range(min(K, len(tr.get(n, [])))):
+                goals.append(('trace-records-the-input:%s@%d' % (n, t), to_bv(tr[n][t], 3) == v.inp(n, t, 3), site + ':trace-value'))
+        for n in ('a', 'b', 'o'):
+            if tr.get(n):
+                goals.append(('inspect(%s)==last-trace-entry' % n, to_bv(insp[n], 4) == to_bv(tr[n][-1], 4), site + ':inspect'))
+        ob.prove_all(goals, list(p.pc), v)
+
+
 def do_illegal(case, ob, site):
     kind, w = case['sim'], case['w']
     pyrtl.reset_working_block()
@@ -838,7 +897,7 @@ def do_rejected_step(case, ob, site):
 
 KINDS = {'inspect': do_inspect, 'step_multiple': do_step_multiple, 'vcd': do_vcd, 'print_trace': do_print_trace,
          'rtl_assert': do_rtl_assert, 'default_tracer': do_default_tracer, 'two_sims': do_two_sims, 'run_many': do_run_many, 'illegal': do_illegal, 'step_multiple_resume': do_step_multiple_resume,
-         'rejected_step': do_rejected_step, 'rtl_assert_channels': do_rtl_assert_channels}
+         'rejected_step': do_rejected_step, 'rtl_assert_channels': do_rtl_assert_channels, 'dup_track': do_dup_track}
 
 
 def run_case(case, ob, tier):
@@ -870,11 +929,11 @@ def replay(cex):
         return bad, '%s.step({a: %d}) on a %d-bit input: %s, o=%r' % (cls.__name__, val, c['w'], 'accepted' if acc else 'rejected', seen)
     if k == 'rejected_step':
         return replay_rejected_step(c, cex.get('model', {}))
-    if cex.get('structural') or k in ('print_trace', 'step_multiple_resume', 'rtl_assert_channels'):
+    if cex.get('structural') or k in ('print_trace', 'step_multiple_resume', 'rtl_assert_channels', 'dup_track'):
         ob = Obligations(PROP, c, 20000)
         KINDS[k](c, ob, site_of(c))
         bad = [x['obligation'] for x in ob.sat]
-        return cex['obligation'] in bad or (bool(bad) and k in ('print_trace', 'step_multiple_resume', 'rtl_assert_channels')), 'failing on re-execution: %r' % bad[:5]
+        return cex['obligation'] in bad or (bool(bad) and k in ('print_trace', 'step_multiple_resume', 'rtl_assert_channels', 'dup_track')), 'failing on re-execution: %r' % bad[:5]
     # symbolic obligations: re-execute with the model values substituted concretely
     mv = cex.get('model', {})
     block = designs.build(c) if 'fam' in c else None
